@@ -488,3 +488,37 @@ def r11j(ctx: Ctx) -> list[Ob]:
             else:
                 out.append(ok("R11j", c.qualname, inst, "gradient tracking is left alone", m.loc, nontrivial=False))
     return out
+
+
+# ------------------------------------------------------------------------------------------ R11k
+def r11k(ctx: Ctx, modules: tuple[str, ...] = ("cirkit.backend.torch.parameters", "cirkit.backend.torch.layers")) -> list[Ob]:
+    """R11k -- every hand-written max-shift is made finite before it is subtracted.
+
+    The same clause R11c states for the semiring reductions, for any torch-side ``forward``: a stable
+    exponentiation ``exp(x - m)`` whose shift ``m`` derives from ``max`` / ``amax`` needs ``m`` passed
+    through ``clamp`` / ``nan_to_num`` / ``where`` first -- a row of all ``-inf`` (the log of an
+    impossible event: a Categorical unit with no support after a product of indicator inputs) gives
+    ``-inf - (-inf) = nan`` where ``torch.logsumexp`` returns ``-inf``."""
+    obs: list[Ob] = []
+    n = 0
+    for f in ctx.repo.iter_functions():
+        if not f.module.name.startswith(modules) or f.name not in ("forward", "log_partition_function", "log_unnormalized_likelihood", "integrate"):
+            continue
+        ld = LocalDefs(f.node)
+        for c in walk_no_nested(f.node):
+            if isinstance(c, ast.Call) and (dotted(c.func) or "").split(".")[-1] in EXP_LIKE and c.args:
+                for e in ld.expand(c.args[0]):
+                    for s in ast.walk(e):
+                        if isinstance(s, ast.BinOp) and isinstance(s.op, ast.Sub):
+                            calls = ld.calls(s.right)
+                            names = {(dotted(c_.func) or "").split(".")[-1] for c_ in calls}
+                            if not (names & MAX_FUNCS):
+                                continue
+                            n += 1
+                            site = f"{f.module.relpath}:{c.lineno}"
+                            if names & FINITE_GUARDS:
+                                obs.append(ok("R11k", f.qualname, "shift:finite", f"made finite by {sorted(names & FINITE_GUARDS)}", site))
+                            else:
+                                obs.append(viol("R11k", f.qualname, "shift:finite", f"`{unparse(c)[:60]}` subtracts a max-shift that is not made finite (clamp / nan_to_num / where): an all -inf row evaluates to nan instead of -inf -- integrate of a Categorical unit without support then poisons the whole partition function", site))
+    obs.append(ok("R11k", "cirkit.backend.torch", "hand-written-shifts", f"{n} hand-written max-shift(s) outside the semirings", "", nontrivial=False))
+    return obs
